@@ -37,6 +37,7 @@ type TierCfg struct {
 	TimeoutMs    int            `json:"solver_timeout_ms"`
 	BudgetS      float64        `json:"budget_s"`
 	PreemptAtSync  bool         `json:"preempt_at_sync"`
+	RaceMaps       bool         `json:"race_maps"`
 	MaxPreemptions int          `json:"max_preemptions"`
 	ReverseMaps  bool           `json:"reverse_maps"`
 	Skip         bool           `json:"skip"`
@@ -203,7 +204,7 @@ func main() {
 			MaxInstr: def64(tc.MaxInstr, 3_000_000), MaxAlloc: defInt(tc.MaxAlloc, 4096), MaxFanout: defInt(tc.MaxFanout, 64),
 			MaxDecisions: defInt(tc.MaxDecisions, 2000), MaxPaths: defInt(tc.MaxPaths, 200000), ReverseMaps: tc.ReverseMaps,
 			Bounds: tc.Bounds, Solver: *solver, TimeoutMs: defInt(tc.TimeoutMs, 20000), Workers: *workers, Seed: seed,
-			Samples: 4, MaxViolPerLabel: 2, NoInitOK: map[string]bool{}, BudgetS: tc.BudgetS, Progress: *verbose, PreemptAtSync: tc.PreemptAtSync, MaxPreemptions: defInt(tc.MaxPreemptions, 3),
+			Samples: 4, MaxViolPerLabel: 2, NoInitOK: map[string]bool{}, BudgetS: tc.BudgetS, Progress: *verbose, PreemptAtSync: tc.PreemptAtSync, RaceMaps: tc.RaceMaps, MaxPreemptions: defInt(tc.MaxPreemptions, 3),
 		}
 		if *tier == "thorough" {
 			cfg.Samples = 12
@@ -334,8 +335,22 @@ func main() {
 			bins[pkg] = bin
 			defer os.Remove(bin)
 		}
+		raceBins := map[string]string{}
 		for _, p := range pend {
-			out := runNative(bins[p.h.cfg.Pkg], p.file)
+			bin := bins[p.h.cfg.Pkg]
+			if p.viol != nil && p.viol.Kind == "race" {
+				// concurrent map access: confirmed by the Go race detector on the real code
+				if raceBins[p.h.cfg.Pkg] == "" {
+					rb, err := buildNativeOpt(p.h.cfg.Pkg, byPkg[p.h.cfg.Pkg], overlay, true)
+					if err != nil {
+						fatal(2, "native -race build for %q failed: %v", p.h.cfg.Pkg, err)
+					}
+					raceBins[p.h.cfg.Pkg] = rb
+					defer os.Remove(rb)
+				}
+				bin = raceBins[p.h.cfg.Pkg]
+			}
+			out := runNative(bin, p.file)
 			if p.sample != nil {
 				if strings.HasPrefix(out.Outcome, "assert:") || strings.HasPrefix(out.Outcome, "panic:") || strings.HasPrefix(out.Outcome, "crash:") {
 					// The real code fails the harness' assertion (or crashes) on this concrete input:
@@ -585,6 +600,9 @@ func mergeTier(q, t TierCfg) TierCfg {
 	if t.BudgetS != 0 {
 		out.BudgetS = t.BudgetS
 	}
+	if t.RaceMaps {
+		out.RaceMaps = true
+	}
 	if t.PreemptAtSync {
 		out.PreemptAtSync = true
 	}
@@ -743,6 +761,11 @@ func pkgName(rel string) (string, error) {
 }
 
 func buildNative(pkg string, funcs []string, overlay map[string][]byte) (string, error) {
+	return buildNativeOpt(pkg, funcs, overlay, false)
+}
+
+// buildNativeOpt builds the replay test binary, optionally with the Go race detector.
+func buildNativeOpt(pkg string, funcs []string, overlay map[string][]byte, race bool) (string, error) {
 	name, err := pkgName(pkg)
 	if err != nil {
 		return "", err
@@ -784,7 +807,11 @@ func buildNative(pkg string, funcs []string, overlay map[string][]byte) (string,
 		return "", err
 	}
 	binf.Close()
-	cmd := exec.Command("go", "test", "-c", "-vet=off", "-overlay", ovFile, "-o", binf.Name(), pkgPath(pkg))
+	args := []string{"test", "-c", "-vet=off", "-overlay", ovFile, "-o", binf.Name()}
+	if race {
+		args = append(args, "-race")
+	}
+	cmd := exec.Command("go", append(args, pkgPath(pkg))...)
 	cmd.Dir = repoDir
 	cmd.Env = repoEnv()
 	var buf bytes.Buffer
@@ -841,12 +868,25 @@ func runNative(bin, file string) nativeOutcome {
 }
 
 func nativeConfirms(v *sym.Violation, out nativeOutcome) bool {
-	if v.Sched {
+	if v.Sched && v.Kind != "race" {
 		// schedule-dependent counterexample: the stress replay runs under the real scheduler,
 		// which may expose the same race through another assertion of the harness first
 		return strings.HasPrefix(out.Outcome, "assert:") || strings.HasPrefix(out.Outcome, "panic:") || strings.HasPrefix(out.Outcome, "crash:") || out.Outcome == "timeout"
 	}
 	switch v.Kind {
+	case "race":
+		if strings.Contains(out.Raw, "fatal error: concurrent map") {
+			return true
+		}
+		if !strings.Contains(out.Raw, "WARNING: DATA RACE") {
+			return false
+		}
+		for _, f := range v.RaceFuncs {
+			if f != "" && strings.Contains(out.Raw, f) {
+				return true
+			}
+		}
+		return false
 	case "assert":
 		return out.Outcome == "assert:"+v.Label
 	case "panic":
